@@ -189,6 +189,77 @@ tasks:
         cmd: "printf 'g{{.ITEM}}\n'; printf 'h{{.ITEM}}\n' >&2"
 `}, calls: []string{"all"}, lines: 4})
 	}
+	// shell options given at exactly one level (unsorted, with a duplicate), shared by concurrent commands
+	for _, level := range []string{"global", "task", "cmd"} {
+		g, tk, c := "", "", ""
+		opts := "    set: [pipefail, errexit, pipefail]\n    shopt: [nullglob, globstar]\n"
+		switch level {
+		case "global":
+			g = "set: [pipefail, errexit, pipefail]\nshopt: [nullglob, globstar]\n"
+		case "task":
+			tk = opts
+		case "cmd":
+			c = "        set: [pipefail, errexit, pipefail]\n        shopt: [nullglob, globstar]\n"
+		}
+		ws = append(ws, workload{name: "shell-options-" + level, files: map[string]string{"Taskfile.yml": hdr + g + `
+tasks:
+  all:
+    deps:
+      - for: [1,2,3,4,5,6,7,8]
+        task: opt
+        vars: {N: '{{.ITEM}}'}
+  opt:
+` + tk + `    cmds:
+      - cmd: printf 'opt %s a\n' '{{.N}}'
+` + c + `      - cmd: printf 'opt %s b\n' '{{.N}}'
+` + c}, calls: []string{"all"}, lines: 16})
+	}
+	// the same fingerprinted task and many task attributes under concurrent callers
+	ws = append(ws, workload{name: "kitchen-sink", listToo: true, files: map[string]string{"in.txt": "x\n", ".env": "DE=1\n", "Taskfile.yml": hdr + `
+dotenv: ['.env']
+env: {GE: ge}
+vars: {GV: gv}
+tasks:
+  all:
+    desc: everything
+    aliases: [everything]
+    deps:
+      - for: [1,2,3,4,5,6]
+        task: fp
+        vars: {N: '{{.ITEM}}'}
+      - for: [1,2,3,4,5,6]
+        task: 'w-{{.ITEM}}'
+      - for: [1,2,3]
+        task: attrs
+        vars: {N: '{{.ITEM}}'}
+  fp:
+    label: 'fp-{{.N}}'
+    sources: ['in.txt']
+    generates: ['out-{{.N}}.txt']
+    method: checksum
+    cmds:
+      - printf 'fp %s %s\n' '{{.N}}' '{{.CHECKSUM}}' > 'out-{{.N}}.txt'
+      - printf 'fp %s\n' '{{.N}}'
+  'w-*':
+    vars: {M: '{{index .MATCH 0}}'}
+    cmds: ["printf 'wild {{.M}}\n'"]
+  attrs:
+    desc: 'attrs {{.N}}'
+    summary: 'summary {{.N}}'
+    prefix: 'p{{.N}}'
+    platforms: [linux, darwin]
+    requires: {vars: [N]}
+    dir: 'd{{.N}}'
+    env: {TE: 'te{{.N}}'}
+    status: ['test -f nothing-{{.N}}']
+    preconditions: [{sh: 'test 1 = 1', msg: ok}]
+    interactive: false
+    cmds:
+      - cmd: printf 'attrs %s %s %s\n' '{{.N}}' "$TE" "$GE"
+        platforms: [linux]
+      - cmd: 'false'
+        ignore_error: true
+`}, calls: []string{"all"}, lines: 12})
 	// wide include tree: sibling reader goroutines during Setup, then namespaced calls
 	incl := map[string]string{}
 	root := hdr + "includes:\n"
